@@ -725,6 +725,9 @@ bool DBToken::deleteObject(OSObject *object)
 		return false;
 	}
 
+	// remove() detaches the object from its row: remember it for the case that the row stays
+	long long objectId = static_cast<DBObject *>(object)->objectId();
+
 	if (!static_cast<DBObject *>(object)->remove())
 	{
 		ERROR_MSG("Error while deleting an existing object from the token database at \"%s\"", _connection->dbpath().c_str());
@@ -736,6 +739,8 @@ bool DBToken::deleteObject(OSObject *object)
 	{
 		ERROR_MSG("Error while committing the deletion of an existing object in token database at \"%s\"", _connection->dbpath().c_str());
 		object->abortTransaction();
+		// The deletion was rolled back, the object still exists
+		static_cast<DBObject *>(object)->find(objectId);
 		return false;
 	}
 
